@@ -164,6 +164,10 @@ def run(ctx):
     rep.rule("C21.R1b", "proceeding with an unconverged step only when continue_with_unconverged is true", 8)
     rep.rule("C21.R2", "truncated returns warn with the time and carry no failed-step data", 4)
     rep.rule("C21.R3", "every force family is used or guarded by each solver", 40)
+    rep.rule("C21.R4", "the iteration helpers of the solvers cannot hand back an unconverged / diverged iterate as success (fsolve warns, fixed-point helpers raise)", 4)
+    from . import c22
+    for rel_, fname_, _tols, kind_ in c22.HELPERS:
+        c22.r3_failure_paths(ctx, "C21.R4", rel_, fname_, kind_)
     _done.clear()
     eng = Engine(ctx)
     nflags = 0
@@ -426,3 +430,16 @@ NEUTRAL = [
          new='            if converged:\n                pass\n            elif self.options.continue_with_unconverged:\n                warnings.warn(\n                    "fixed-point iteration is not converged but integration is continued"\n                )\n            else:\n                raise RuntimeError("fixed-point iteration is not converged")'),
 ]
 MUTANTS = [m for m in MUTANTS if not m.get("neutral_ok")]
+DSV_ = "cardillo/solver/dual_stormer_verlet.py"
+MUTANTS += [
+    dict(id="c21-r4-seed", canary=True, what="[seeded by sub-agent] fixed-point helpers test `error >= 1` after the loop (a NaN error is returned as success)", file=DSV_,
+         edits=[(DSV_, "    converged = False\n    for k in range(0, max_iter):", "    for k in range(0, max_iter):"),
+                (DSV_, "        if error < 1:\n            converged = True\n            break", "        if error < 1:\n            break"),
+                (DSV_, "    if not converged:\n", "    if error >= 1:\n")], expect="C21.R4"),
+]
+NEUTRAL += [
+    dict(id="c21-n-r4", what="momentum helper: NaN-safe test after the loop instead of a flag", file=DSV_,
+         edits=[(DSV_, "    converged = False\n    for k in range(0, max_iter):", "    for k in range(0, max_iter):"),
+                (DSV_, "        if error < 1:\n            converged = True\n            break", "        if error < 1:\n            break"),
+                (DSV_, "    if not converged:\n", "    if not (error < 1):\n")]),
+]
